@@ -106,6 +106,36 @@ def check_state(job):
         out.append((["C16"], "batch_variance", "coil_batch_size=%s changes the operator (max diff %.3g)" % (bsz, np.abs(D - D1).max() if D1 is not None else -1)))
     for kind, d in dfs:
         out.append((["C02"], kind, d))
+    # time-segmented off-resonance correction (tseg): the operator is sum_l diag(b_l) F S diag(ct_l) with the library's own
+    # segment weights; it too must not depend on how the coils are batched, and its adjoint is its conjugate transpose
+    if coord is not None and len(shape) == 2:        # (the segment weights are defined for 2-D field maps: `[Nt 2]` trajectories)
+        b0 = rs.randn(*shape) * 400.0
+        tseg = {"b0": b0, "dt": 1e-3, "lseg": 2 + seed % 2, "n_bins": 8}
+        with warnings.catch_warnings():
+            warnings.simplefilter("ignore")
+            try:
+                At = sp.mri.linop.Sense(mps, coord=coord, weights=w, tseg=tseg, coil_batch_size=bsz)
+                At1 = sp.mri.linop.Sense(mps, coord=coord, weights=w, tseg=tseg)
+                Dt, _ = linop_build.dense(At)
+                Dt1, _ = linop_build.dense(At1)
+                DtH, _ = linop_build.dense(At.H)
+                bseg, ctseg = sp.mri.util.tseg_off_res_b_ct(b0, tseg["n_bins"], tseg["lseg"], tseg["dt"], len(coord) * tseg["dt"])
+            except Exception as e:
+                if not core.raised_in_code_under_test():
+                    raise
+                out.append((["C16"], "exception", "Sense(tseg=...) raised %r / %r" % (e, getattr(e, "__cause__", None))))
+                return c, out
+        sw = np.sqrt(w.astype(np.float64)).ravel() if w is not None else np.ones(F.shape[0])
+        Et = np.vstack([sum(np.diag(sw * bseg[:, l]) @ F @ np.diag(ctseg[:, l].ravel() * mps[k].ravel()) for l in range(tseg["lseg"])) for k in range(nc)])
+        if Dt is None or Dt1 is None or Dt.shape != Dt1.shape or not np.allclose(Dt, Dt1, atol=1e-12 * max(1.0, np.abs(Dt1).max())):
+            out.append((["C16"], "batch_variance", "with off-resonance segments (tseg) coil_batch_size=%s changes the operator (max diff %.3g; difference to the operator WITHOUT tseg %.3g)"
+                        % (bsz, np.abs(Dt - Dt1).max() if Dt is not None and Dt1 is not None and Dt.shape == Dt1.shape else -1, np.abs(Dt - D).max() if Dt is not None and Dt.shape == D.shape else -1)))
+        elif np.linalg.norm(Dt - Et) / max(np.linalg.norm(Et), 1e-300) > tol:
+            out.append((["C16"], "encoding", "dense(Sense(tseg)) differs from sum_l diag(b_l) F S diag(ct_l): relative error %.3g > %.3g" % (np.linalg.norm(Dt - Et) / np.linalg.norm(Et), tol)))
+        if Dt is not None and np.linalg.norm(Dt1 - D) <= 1e-3 * np.linalg.norm(D):
+            out.append((["SPEC"], "vacuous", "the tseg instance does not differ from the plain operator"))
+        if DtH is None or Dt is None or not np.allclose(DtH, Dt.conj().T, atol=1e-10 * max(1.0, np.abs(Dt).max())):
+            out.append((["C16", "C01"], "adjoint", "Sense(tseg).H is not the conjugate transpose of Sense(tseg)"))
     return c, out
 
 
